@@ -153,6 +153,7 @@ def paths_of(repo, fi, make_args, summaries=None, kwargs=None, max_paths=4000, *
 
     def run(it):
         args = make_args() if callable(make_args) else list(make_args)
+        it.args = args
         return it.call_function(fi, args, dict(kwargs or {}))
     return explore(mk, run, max_paths=max_paths)
 
